@@ -185,3 +185,31 @@ Theorem S_init_is_source :
 Proof. exact init_is_source. Qed.
 Print Assumptions S_init_is_source.
 
+
+Theorem R_C19_source_proposal_bounded :
+  forall (fexp : R -> R) (score : N -> list R -> option R) (c : cfg NumR) (ps : list (carrier
+    NumR)) (hs : list (handle NumR)) (s0 : carrier NumR) (draws : list (draw NumR)) (d : draw
+    NumR) (h : handle NumR) (w' : world NumR), let st := run NumR fexp score c (init NumR c ps
+    hs s0) draws in let w := {| w_params := params NumR st; w_handles := handles NumR st;
+    w_calls := calls NumR st |} in nth_error (handles NumR st) (d_idx NumR d) = Some h -> h_cell
+    NumR h < length (params NumR st) -> (h_min NumR h <= nth (h_cell NumR h) (params NumR st) 0
+    <= h_max NumR h)%R -> (Rabs (d_g NumR d) <= 1 / 2)%R -> (0 <= max_step NumR c)%R ->
+    w_set_sampled NumR w (d_idx NumR d) (max_step NumR c * ratio NumR st)%num (d_g NumR d) =
+    Some w' -> (Rabs (nth (h_cell NumR h) (w_params NumR w') 0 - nth (h_cell NumR h) (params
+    NumR st) 0) <= max_step NumR c * (h_max NumR h - h_min NumR h) / 2)%R /\ (forall k : nat, k
+    <> h_cell NumR h -> nth k (w_params NumR w') 0%R = nth k (params NumR st) 0%R).
+Proof. exact R_C19_source_proposal_bounded. Qed.
+Print Assumptions R_C19_source_proposal_bounded.
+
+Theorem S_world_operations_are_source :
+  forall (NN : Num) (w : world NN) (idx : nat) (h : handle NN) (step g : carrier NN), nth_error
+    (w_handles NN w) idx = Some h -> w_set_sampled NN w idx step g = (let '(old', v') :=
+    gen_set_sampled NN (h_min NN h) (h_max NN h) (h_old NN h) (get_cell NN (w_params NN w)
+    (h_cell NN h)) step g in Some {| w_params := set_nth (w_params NN w) (h_cell NN h) v';
+    w_handles := set_nth (w_handles NN w) idx (with_old NN h old'); w_calls := w_calls NN w |})
+    /\ w_reset NN w idx = (let '(_, v') := gen_reset_value NN (h_old NN h) (get_cell NN
+    (w_params NN w) (h_cell NN h)) in Some {| w_params := set_nth (w_params NN w) (h_cell NN h)
+    v'; w_handles := w_handles NN w; w_calls := w_calls NN w |}).
+Proof. exact world_operations_are_source. Qed.
+Print Assumptions S_world_operations_are_source.
+
